@@ -256,6 +256,27 @@ CHECKS = {
              "requests that start at or after end-of-file are outside the statement and are only compared model-vs-code",
         technique="Lean 4 proof over an executable model + op-sequence differential correspondence under sanitizers",
         design="§5 C16"),
+    "C17": dict(
+        text="Lean 4 theorems: (1) RangeModule (the filled-range map of the full-file cache store) is a set of byte positions - for every "
+             "interval list, addRange is union with [l,r), removeRange is difference, and queryRefillRange is sound: `(0,0)` only if every "
+             "requested byte is covered, otherwise a region inside the request outside of which every requested byte is covered; (2) for the "
+             "abstract cache store (filled-range map over a media file, refilled from an immutable source) every read returns exactly the "
+             "source's bytes and count, clipped at the source size, for every offset/length and every refill policy that covers the queried "
+             "region, and by induction the same after every history of reads, whole-file evictions and range evictions (the media stays "
+             "coherent with the source on filled bytes); (3) an acceptor for real runs: a cached read that does not fail returns the "
+             "source's count and bytes, and may fail only if a source read was made to fail while it was in flight. Tied to the code by op "
+             "sequences on the real RangeModule (interval list and answers compared) and by the real full-file cached file system over "
+             "local files on a virtual clock: 2..5 concurrent vectored readers around page / refill-unit / end-of-file boundaries, "
+             "whole-file evictions while reads are in flight, timer-driven pool activity, injected short/failed source reads; every byte "
+             "compared with the source function",
+        note="trusted: Lean kernel + 3 standard axioms; the step from the abstract store to store.cpp (range lock, async refill through the "
+             "thread pool, re-read of the remainder, fiemap vs in-memory range map, pool LRU / quota / reuse scan) is covered only by the "
+             "simulation runs on ONE vCPU, not by a theorem; eviction by quota/capacity, re-use of a cache directory by a new pool, range "
+             "punching (ICacheStore::evict(offset, len); its entry point is not exported from libphoton.so) and the OCF / memory / persistent "
+             "cache variants are not exercised; the model's removeRange walks the whole list (the C++ stops early on the sorted map) - equal on "
+             "sorted maps, which the correspondence compares",
+        technique="Lean 4 proof over executable models + op-sequence correspondence + deterministic simulation of the real cached file system",
+        design="§5 C17"),
     "C18": dict(
         text="Lean 4 theorem by induction over every history of lock / try-lock-and-wait / unlock (handle or range) / adjust operations, any "
              "threads, any ranges (zero-length, adjacent, nested, saturating at the top of the 64-bit space): the index stays sorted by the "
